@@ -157,7 +157,10 @@ def small_files_job(args):
                         # the rules carry no user code, so a complete scanner must be valid C
                         p = subprocess.run(["gcc", "-fsyntax-only", "-w", "-x", "c", "o.c"], cwd=wd, stdout=subprocess.PIPE, stderr=subprocess.PIPE)
                         indented = any(l[:1] in (b" ", b"\t") for l in data.split(b"\n"))     # indented lines are user code
-                        if p.returncode != 0 and not indented and not any(c in data for c in (b"{", b"}")):
+                        # text after the first blank of a rule line is its action, i.e. user code as well (a thorough run reported
+                        # "] a" as a scanner that does not compile: the action "a" is the user's)
+                        has_action = any((b" " in l.strip() or b"\t" in l.strip()) for l in data.split(b"\n"))
+                        if p.returncode != 0 and not indented and not has_action and not any(c in data for c in (b"{", b"}")):
                             probs.append(("does-not-compile", "exit status 0 but the scanner does not compile: " + p.stderr.decode("latin-1")[:300]))
                 elif rc and rc > 0:
                     res["rejected"] += 1
